@@ -25,6 +25,14 @@ UNITS = [
         contracts="contracts/compact_calendar.contracts",
     ),
     dict(
+        id="syntax.sorted_vec",
+        package="opening-hours-syntax",
+        owner="opening-hours-syntax/src/sorted_vec.rs",
+        harness="kani/syntax/verif_sorted_vec.rs",
+        modname="verif_sorted_vec",
+        modpath="sorted_vec::verif_sorted_vec",
+    ),
+    dict(
         id="syntax.extended_time",
         package="opening-hours-syntax",
         owner="opening-hours-syntax/src/extended_time.rs",
@@ -34,6 +42,26 @@ UNITS = [
         contracts="contracts/extended_time.contracts",
     ),
 ]
+
+UNITS.append(dict(
+    id="oh.schedule",
+    package="",
+    owner="opening-hours/src/schedule.rs",
+    harness="kani/oh/verif_schedule.rs",
+    modname="verif_schedule",
+    modpath="schedule::verif_schedule",
+    deps=["syntax.sorted_vec", "syntax.extended_time"],
+))
+
+UNITS.append(dict(
+    id="oh.date_filter",
+    package="",
+    owner="opening-hours/src/filter/date_filter.rs",
+    harness="kani/oh/verif_date_filter.rs",
+    modname="verif_date_filter",
+    modpath="filter::date_filter::verif_date_filter",
+    deps=["syntax.extended_time"],
+))
 
 VERUS_UNITS = [
     dict(
@@ -54,6 +82,12 @@ COMMON_ASSUMPTIONS = [
 
 # Per-property level and the clauses of the statement that no obligation speaks to.
 PROPS = {
+    "C08": dict(level="other", technique="Kani contract harnesses (assert form) per selector / unit", level_text="TODO", level_note="TODO"),
+    "C04": dict(level="other", technique="Kani contract harnesses (assert form) per selector / unit", level_text="TODO", level_note="TODO"),
+    "C02": dict(level="other", technique="Kani contract harnesses (assert form) per selector / unit", level_text="TODO", level_note="TODO"),
+    "C01": dict(level="other", technique="Kani contract harnesses (assert form) per selector / unit", level_text="TODO", level_note="TODO"),
+    "C14": dict(level="other", technique="Kani contract harnesses (assert form), bounded lengths, trusted sort model", level_text="TODO", level_note="TODO"),
+    "C20": dict(level="other", technique="Kani contract harnesses (assert form), bounded lengths", level_text="TODO", level_note="TODO"),
     "C15": dict(
         level="other",
         technique="Kani function contracts, modular (month -> year -> calendar via stub_verified)",
